@@ -162,6 +162,39 @@ func cmpValues(tier string) []*cmpVal {
 	for _, v := range WVecs(3, []uint64{BW - 1, (1<<64 - 1) - BW + 2, 1 << 63, 1<<63 - 1, 1}) {
 		os = append(os, mkWords(false, v, 0, 0, 0), mkWords(true, v, 0, 0, 0))
 	}
+	// long mantissas (4 … 33 words) of one repeated word that differ from each other in exactly one
+	// word, at every index, and the same vectors with one more low word: a comparison loop that
+	// handles several words per step, or skips equal blocks, is decided by a word in the middle
+	longLens := []int{4, 7, 8, 9, 12, 13, 16, 17}
+	if tier == "thorough" {
+		longLens = append(longLens, 5, 6, 10, 11, 15, 24, 25, 32, 33, 64, 65)
+	}
+	for _, n := range longLens {
+		for _, w := range []uint64{BW - 2, 3333333333333333333, BW / 10, 0} {
+			base := make([]uint64, n)
+			for i := range base {
+				base[i] = w
+			}
+			if w < BW/10 {
+				base[n-1] = BW / 10
+			}
+			os = append(os, mkWords(false, base, 0, 0, 0), mkWords(true, base, 0, 0, 0))
+			for i := 0; i < n; i++ {
+				for _, d := range []uint64{1, ^uint64(0)} {
+					if base[i] == 0 && d != 1 || i == n-1 && base[i]+d < BW/10 {
+						continue
+					}
+					v := append([]uint64(nil), base...)
+					v[i] += d
+					os = append(os, mkWords(i%2 == 1, v, 0, 0, 0))
+					if i%3 == 0 {
+						os = append(os, mkWords(i%2 == 0, v, 0, 0, 0))
+					}
+				}
+			}
+			os = append(os, mkWords(false, append([]uint64{0}, base...), 0, 0, 0), mkWords(false, append([]uint64{1}, base...), 0, 0, 0))
+		}
+	}
 	J := 20
 	for _, s := range RunLengthStrings(J) {
 		c := mustInt(s)
@@ -257,7 +290,7 @@ func cmpLayers(tier string) []Layer {
 	layers = append(layers, Layer{
 		Name:   "O1-pairs",
 		Units:  n,
-		Bounds: fmt.Sprintf("all ordered pairs over %d values: ±D(2)×10^[-2..2], ±W(3,S7) plain / with an extra low zero word (built through SetBitsExp, through a gob payload, or by clearing the word through BitsExp) / with a differing lowest word, run-length strings, range-end exponents, ±0, ±Inf (also in variables that held 1, 1e-7, a 3-word value, 5e5 before); each value decorated (mode, larger precision, non-Exact accuracy from a real rounding, Set from a longer mantissa with trailing zero words, precision attribute near MaxPrec, reached from below by a carry through a word of nines, built by SetBitsExp from an un-normalised slice with a leading zero word)", n),
+		Bounds: fmt.Sprintf("all ordered pairs over %d values: ±D(2)×10^[-2..2], ±W(3,S7) plain / with an extra low zero word (built through SetBitsExp, through a gob payload, or by clearing the word through BitsExp) / with a differing lowest word, run-length strings, range-end exponents, ±0, ±Inf (also in variables that held 1, 1e-7, a 3-word value, 5e5 before); each value decorated (mode, larger precision, non-Exact accuracy from a real rounding, Set from a longer mantissa with trailing zero words, precision attribute near MaxPrec, reached from below by a carry through a word of nines, built by SetBitsExp from an un-normalised slice with a leading zero word); 4 … 17-word (thorough … 65) mantissas of one repeated word differing in exactly one word at every index", n),
 		Run: func(c *Ctx, u int) {
 			vs := get()
 			x := vs[u]
